@@ -87,6 +87,13 @@ func compareResult(w *World, p *Plan, ref RefRun, out *Outcome, alignedSites boo
 		if !errors.Is(out.Err, want) {
 			return viol(narrowed(w, p), "error-identity", "engine returned %v, which is not (and does not wrap) the seam's error %v", out.Err, want)
 		}
+		if w.Prop == "C01" && out.Err != error(want) {
+			// C01: "the error is the very one the fetcher or operator returned" —
+			// the object itself, not a new error that wraps or re-words it (a
+			// caller comparing with == or switching on the concrete type sees the
+			// difference)
+			return viol(narrowed(w, p), "error-identity", "engine returned %v (%T), which wraps the seam's error %v instead of being it", out.Err, out.Err, want)
+		}
 		if other := chainHasOtherSentinel(out.Err, want); other != nil {
 			return viol(narrowed(w, p), "error-identity", "engine error %v also carries another seam error %v", out.Err, other)
 		}
